@@ -22,5 +22,7 @@ CHECK = dict(
         "-max_len=4096 bounds nesting depth (the property bounds it too)",
         "the faithful subset: identifiers [A-Za-z_][A-Za-z0-9_.]*, unique property names, values without the active quote and "
         "without backslash, at most one content run per node, comments between nodes only",
+        "a comment is what the reader defines: \"<!--\", then anything up to the first \"-->\" (dash runs inside or right before the "
+        "terminator included, as in banner comments); stricter XML well-formedness of comment bodies is not demanded",
     ],
 )
